@@ -44,7 +44,9 @@ FreshBad(e) == {k \in 1..Len(e.post.objs) : ~Prog.cache[e.post.objs[k].name]
                    /\ (Foreign(e, k) # {} \/ Cardinality(InjUsers(e, k)) > 1)}
 TwiceBad(e) == \E n \in Names : ~Prog.cache[n] /\ \E p \in Procs :
                    Cardinality({k \in ObjsOf(e, n) : e.post.objs[k].by = p}) > 1
-Fresh(e) == Acyclic => (FreshBad(e) = {} /\ ~TwiceBad(e))
+\* also in programs with a dependency cycle: what a resolution that ended with the cycle error had created must not
+\* reach another invocation
+Fresh(e) == FreshBad(e) = {} /\ ~TwiceBad(e)
 FreshCause(e) == IF ~TwiceBad(e) /\ \A k \in FreshBad(e) : \A p \in (Users(e, k) \cup InjUsers(e, k)) : e.post.overlap[p]
                    THEN "overlapping_invocations" ELSE "other"
 
